@@ -93,12 +93,65 @@ def C13(tier, seed):
         stubs=["load_segmentation -> identity", "numpy ndarray -> SArr"])
 
 
+def _seg(prop, tier, seed, specs, enable=(), extra_runs=(), extra_assume=()):
+    runs = list(extra_runs) + R.seg_runs(prop, tier, specs) + R.enable_runs(prop, tier, enable)
+    return run_property(prop, tier, runs, explanation=R.EXPL, seed=seed,
+                        assumptions=R.STEP_ASSUME + R.SEG_ASSUME + list(extra_assume), stubs=R.SEG_STUBS)
+
+
+G2, G3, G3D = (2, 1, 2), (3, 1, 2), (2, 1, 1, 2)
+
+
+def C07(tier, seed):
+    if tier == "quick":
+        specs = [("paint", 2, G2, {}), ("UserDeleteNode", 2, G2, {}), ("UserAddNode", 2, G2, {})]
+    else:
+        specs = [("paint", 3, G2, {}), ("paint", 2, G3, {}), ("paint", 2, G3D, {}), ("UserDeleteNode", 3, G3, {}),
+                 ("UserAddNode", 3, G2, {}), ("UserAddNode", 2, G3D, {})]
+    return _seg("C07", tier, seed, specs)
+
+
+def C08(tier, seed):
+    a = {"all_rp": True, "scale": "sym"}
+    if tier == "quick":
+        specs = [("paint", 2, G2, a), ("UserAddNode", 2, G2, {"scale": "sym"}), ("UserDeleteNode", 2, G2, a)]
+        en = [(k, 2, G2, {"scale": "sym"}) for k in ("ellipse_axis_radii", "circularity", "perimeter")]
+    else:
+        specs = [("paint", 3, G2, a), ("paint", 2, G3, {"scale": "none", "all_rp": True}), ("paint", 2, G3D, a),
+                 ("UserAddNode", 3, G2, a), ("UserDeleteNode", 3, G3, a)]
+        en = [(k, 3, G3, {"scale": "sym"}) for k in ("ellipse_axis_radii", "circularity", "perimeter")]
+    return _seg("C08", tier, seed, specs, en)
+
+
+def C09(tier, seed):
+    a = {"iou": True}
+    if tier == "quick":
+        specs = [("paint", 2, G3, a), ("UserAddEdge", 3, G3, a), ("UserDeleteNode", 3, G3, a),
+                 ("UserSwapPredecessors", 3, G3, a)]
+        en = [("iou", 3, G3, {})]
+    else:
+        specs = [("paint", 3, G3, a), ("paint", 2, G3D, a), ("UserAddEdge", 4, G3, a), ("UserDeleteNode", 4, G3, a),
+                 ("UserSwapPredecessors", 4, G3, a), ("UserAddNode", 3, G3, a)]
+        en = [("iou", 4, G3, {}), ("iou", 3, (4, 1, 2), {})]
+    return _seg("C09", tier, seed, specs, en)
+
+
 def replay_file(prop, path):
-    from harness import step_replay
+    from harness import labels, relabel, seg_replay, step_replay
 
     with open(path) as f:
         v = json.load(f)
-    ok, detail = step_replay.replay(v)
+    run = v.get("run", "")
+    fn = step_replay.replay
+    if run.startswith(("seg:", "enable:")):
+        fn = seg_replay.replay
+    elif run.startswith("unique"):
+        fn = labels.unique_replay
+    elif run.startswith("bytrack"):
+        fn = labels.bytrack_replay
+    elif run in ("relabel_segmentation", "handle_segmentation"):
+        fn = relabel.replay
+    ok, detail = fn(v)
     print(("VIOLATION property=%s replay=%s" % (prop, path)) if ok else "not reproduced")
     print(detail)
     return 1 if ok else 0
